@@ -17,7 +17,7 @@ KEYWORDS = ['amount', 'date', 'month', 'year', 'day', 'weekday', 'source', 'fiel
 CATS = ['Food', 'Bills & Utilities', 'Travel']
 SUBS = ['Sub One', 'Coffee', 'Fees #2']
 STATIC_TAGS = ['ta', 'TB', ' Tc ', 'x-y', 'Recurring', 'ta']
-DYN_TAGS = ['{field.proj}', '{ source }', '{extract(field.memo, "PROJ:(\\\\w+)")}', '{la}', '{nosuch}',
+DYN_TAGS = ['{field.proj}', '{ source }', '{ga}', '{gb}', '{extract(field.memo, "PROJ:(\\\\w+)")}', '{la}', '{nosuch}',
             '{split(field.memo, ":", 1)}', '{field.kind if amount > 100 else ""}', '{regex_replace(field.proj, "\\\\W", "")}',
             # braces INSIDE the expression (counted repetition): the tag is still one {expression}
             '{extract(field.memo, "PROJ:(\\\\w{2})")}', '{extract(description, "([A-Za-z]{4,5})")}']
@@ -46,7 +46,23 @@ def _lit(rnd, n=None):
     return t
 
 
+def _fn(rnd, name):
+    """Function names are case-insensitive in the language: contains( / Contains( / CONTAINS( / startsWith( are one function."""
+    r = rnd.random()
+    if r < 0.8:
+        return name
+    return rnd.choice([name.upper(), name.title(), name[:5] + name[5:].title() if len(name) > 5 else name.title()])
+
+
 def pattern_atom(rnd):
+    a = _pattern_atom(rnd)
+    for name in ('contains', 'startswith', 'regex', 'anyof', 'normalized'):
+        if a.text.startswith(name + '('):
+            a.text = _fn(rnd, name) + a.text[len(name):]
+    return a
+
+
+def _pattern_atom(rnd):
     k = rnd.randrange(9)
     a = _lit(rnd)
     if k == 8:
@@ -172,7 +188,7 @@ def gen_file(rnd, mode, focus):
     for k in range(n):
         names = [g[0] for g in glob]
         lets = []
-        for ln in rnd.sample(['la', 'lb'], rnd.choice([0, 0, 1, 2])):
+        for ln in rnd.sample(['la', 'lb', 'isBulk', 'Ref2'], rnd.choice([0, 0, 1, 2])):
             t, _, _, _ = gen_cond(rnd, False, names, depth=2, p_fail=max(p_fail, 0.15))
             if rnd.random() < 0.3:
                 t = rnd.choice(['field.proj', 'field.memo', 'extract(field.memo, "PROJ:(\\\\w+)")', 'amount * 2'])
@@ -328,9 +344,21 @@ def _own_tags(rule, tt, observed):
             out.add(t.lower())
             continue
         inner = t[1:-1].strip()
-        if inner in ('la', 'lb', 'nosuch') or not inner:
+        if inner in ('la', 'lb', 'nosuch', 'ga', 'gb') or not inner:
             if inner in ('la', 'lb'):
                 return observed
+            if inner in ('ga', 'gb'):
+                gv = dict(rule.get('_globals') or ())
+                if inner not in gv:
+                    continue
+                try:
+                    v = expr_parser.evaluate_transaction(gv[inner], tt)
+                except expr_parser.ExpressionError:
+                    continue
+                if v is not None and v is not False and v != '' and v != 0:
+                    sv = str(v).strip().lower()
+                    if sv:
+                        out.add(sv)
             continue
         try:
             v = expr_parser.evaluate_transaction(inner, tt)
@@ -354,7 +382,7 @@ def reference(f, k, t):
     r = eng.match(tt)
     if not r.all_matching_rules:
         return {'out': 'N', 'rtags': [], 'xf': '{}'}, tt['description']
-    return {'out': 'T', 'rtags': _own_tags(f['rules'][k], tt, sorted(r.tags)), 'xf': _xf(r.extra_fields) if f['rules'][k]['cat'] else '{}'}, tt['description']
+    return {'out': 'T', 'rtags': _own_tags(dict(f['rules'][k], _globals=f['globals']), tt, sorted(r.tags)), 'xf': _xf(r.extra_fields) if f['rules'][k]['cat'] else '{}'}, tt['description']
 
 
 def record_batch(seed, nfiles, focus, base_id=0):
